@@ -171,7 +171,7 @@ def check_property(pid, tier, seed):
         active = set(r["groups"])
         feats = tuple(r.get("features", ("parallel", "shred-derive")))
         mode = r.get("mode", "T")
-        tag = "%s_%s_%s_%s" % (r["unit"], "_".join(sorted(active)) or "shared", mode, "par" if "parallel" in feats else "nopar")
+        tag = "%s_%s_%s_%s%s" % (r["unit"], "_".join(sorted(active)) or "shared", mode, "par" if "parallel" in feats else "nopar", "_dbg" if "debug_assertions" in feats else "")
         out = os.path.join(BUILD, pid, tag + ".rs")
         try:
             em, extraction, contracts, unit = gen.generate(unit_dir, features=feats, mode=mode, active=active)
